@@ -280,7 +280,7 @@ func ruleFragmentPop(c *Ctx, r *Report) {
 			// precise: from the true edge, before returning to the loop header no MapUpdate executes
 			w2 := &Walk{Fn: pf, Assume: assumeAll(atomAssume{mValue(cmp), vBool(true)})}
 			hdr := loopHeaderOf(cmp.Block())
-			w2.Visit = func(in ssa.Instruction, _ map[*ssa.Phi]Val) bool {
+			w2.Visit = func(in ssa.Instruction, _ Env) bool {
 				if in.Block() == hdr && hdr != nil && in == firstNonPhi(hdr) && w2.steps > 1 {
 					return false
 				}
